@@ -4,27 +4,32 @@ THEOREMS = {
         "Dawgs.C12.Props.delete_inv",
         "Dawgs.C12.Props.setAll_inv",
         "Dawgs.C12.Props.clone_inv_and_independent",
-        "Dawgs.C12.Props.merge_inv_fixed",
-        "Dawgs.C12.Props.merge_inv_iff",
-        "Dawgs.C12.Props.merge_inv_refuted",
-        "Dawgs.C12.Props.kinds_merge_inv_fixed",
-        "Dawgs.C12.Props.kinds_merge_inv_iff",
-        "Dawgs.C12.Props.kinds_merge_inv_refuted",
+        "Dawgs.C12.Props.merge_inv",
+        "Dawgs.C12.Props.kinds_merge_inv",
+        "Dawgs.C12.Props.relationship_merge_inv",
+        "Dawgs.C12.Props.reads_do_not_track",
+        "Dawgs.C12.Props.setAll_empty_noop",
+        "Dawgs.C12.Props.constructors_untracked",
         "Dawgs.C12.Props.history_inv",
         "Dawgs.C12.Props.kinds_history_inv",
         "Dawgs.C12.Props.reproduce_loaded_state",
         "Dawgs.C12.Props.driver_delta_complete",
         "Dawgs.C12.Props.last_edit_wins",
         "Dawgs.C12.Props.monitor_sound",
-        "Dawgs.C12.Props.c12_full_refuted",
-        "Dawgs.C12.Props.c12_fixed",
-        "Dawgs.C12.Props.c12_partial",
+        "Dawgs.C12.Props.c12",
+        # the merges before /repo commit 179da67 (finding F4), frozen definitions
+        "Dawgs.C12.Props.merge_inv_old_iff",
+        "Dawgs.C12.Props.merge_inv_old_refuted",
+        "Dawgs.C12.Props.kinds_merge_inv_old_iff",
+        "Dawgs.C12.Props.kinds_merge_inv_old_refuted",
+        "Dawgs.C12.Props.c12_old_refuted",
+        "Dawgs.C12.Props.c12_old_partial",
     ],
 }
 
 EDITS = ("set ", "setall ", "addk ")
 REMOVALS = ("del ", "delk ")
-JOINS = ("pmerge ", "merge ", "clone ")
+JOINS = ("pmerge ", "merge ", "rmerge ", "clone ")
 
 
 def nontrivial(ops, impl):
